@@ -45,6 +45,10 @@ let run line =
        "OK " ^ s ^ " " ^ (if t = "" then "_" else t))
   | "Q" -> show_strs (sort_str (strs_of f.(1)))
   | "M" -> show_strs (metavars_in_order (strs_of f.(1)) (strs_of f.(2)))
+  | "K" -> (* K <base> <selected names> : numbers given by GlobalScope.unambiguize in the all-same-choice scope *)
+           let rec int_of_nat = function O -> 0 | S n -> 1 + int_of_nat n in
+           let r = unambiguize_numbers (nat_of_int (int_of_string f.(1))) (strs_of f.(2)) in
+           if r = [] then "_" else String.concat ";" (List.map (fun (v, n) -> show_str v ^ "=" ^ string_of_int (int_of_nat n)) r)
   | "U" -> show_strs (unlink_all (strs_of f.(1)) (strs_of f.(2)))
   | _ -> "?"
 
